@@ -95,7 +95,7 @@ func checkC18(c *Check) {
 			m := mop{EP: v.EP, Method: name, Map: pathRecv(v.R.Of(ci.Common().Args[0])), Ins: v.Ins, Fn: v.Fn, R: v.R, Args: ci.Common().Args}
 			for _, a := range ci.Common().Args {
 				if mc, ok := a.(*ssa.MakeClosure); ok {
-					m.Cb = mc.Fn.(*ssa.Function)
+					m.Cb = unwrapBound(mc.Fn.(*ssa.Function))
 				}
 			}
 			mops = append(mops, m)
